@@ -427,8 +427,10 @@ public:
    {
       add(svec, n);
 
-      for(int i = num() - 1; --n; --i)
-         nkey[n] = key(i);
+      int i = num();
+
+      while(n > 0)
+         nkey[--n] = key(--i);
    }
 
    /// Adds all SVectorBase%s in \p pset to SVSetBase.
